@@ -218,7 +218,7 @@ where
     /// A copy of all the entries in the map. Values are arc'd so they are cheap, though not free, copies.
     pub fn all(&self) -> Vec<(I, Arc<T>)> {
         #[cfg(fontc_verif)]
-        fontdrasil::verif::access("scan", std::any::type_name::<T>(), None);
+        fontdrasil::verif::access("scan", std::any::type_name::<T>(), None::<&I>);
         self.value
             .read()
             .iter()
@@ -340,7 +340,7 @@ where
 #[cfg(fontc_verif)]
 fn verif_readback<I, T, P>(storage: &P, id: &I, value: &T, eq: Option<fn(&T, &T) -> bool>)
 where
-    I: Debug,
+    I: Debug + Hash,
     T: Persistable,
     P: PersistentStorage<I>,
 {
